@@ -17,6 +17,7 @@ import (
 	"fmt"
 	"image"
 	"image/color"
+	"image/draw"
 	"strings"
 
 	webp "github.com/deepteams/webp"
@@ -127,9 +128,12 @@ func makeSource(rng *Rand, s rtSpec, px []color.NRGBA) image.Image {
 	at := func(x, y int) color.NRGBA { return px[y*w+x] }
 	ox, oy := 0, 0
 	pw, ph := w, h
-	if strings.HasPrefix(s.Kind, "sub-") {
+	if strings.HasPrefix(s.Kind, "sub-") || s.Kind == "generic-offset" {
 		ox, oy = rng.Range(1, 3), rng.Range(1, 3)
 		pw, ph = w+ox+rng.Intn(3), h+oy+rng.Intn(3)
+	}
+	if img := makeStdSub(rng, s, at, ox, oy, pw, ph); img != nil {
+		return img
 	}
 	switch s.Kind {
 	case "nrgba", "sub-nrgba", "generic":
@@ -211,6 +215,89 @@ func makeSource(rng *Rand, s rtSpec, px []color.NRGBA) image.Image {
 		}
 		return im
 	}
+}
+
+// makeStdSub: sub-images (Bounds().Min != (0,0)) of every standard-library image type that implements
+// SubImage and has no fast path in the encoder, plus a custom image.Image with offset bounds.  What the
+// round trip must return is defined by img.At over img.Bounds() (see expected), so the logical pixels only
+// steer the content class.
+func makeStdSub(rng *Rand, s rtSpec, at func(x, y int) color.NRGBA, ox, oy, pw, ph int) image.Image {
+	w, h := s.W, s.H
+	pr := image.Rect(0, 0, pw, ph)
+	sr := image.Rect(ox, oy, ox+w, oy+h)
+	var parent draw.Image
+	switch s.Kind {
+	case "sub-gray":
+		parent = image.NewGray(pr)
+	case "sub-gray16":
+		parent = image.NewGray16(pr)
+	case "sub-alpha":
+		parent = image.NewAlpha(pr)
+	case "sub-alpha16":
+		parent = image.NewAlpha16(pr)
+	case "sub-cmyk":
+		parent = image.NewCMYK(pr)
+	case "sub-nrgba64":
+		parent = image.NewNRGBA64(pr)
+	case "sub-rgba64":
+		parent = image.NewRGBA64(pr)
+	case "sub-paletted":
+		pal := color.Palette{}
+		for i := 0; i < rng.Range(1, 256); i++ {
+			pal = append(pal, color.NRGBA{uint8(rng.U64()), uint8(rng.U64()), uint8(rng.U64()), uint8(rng.Pick(0, 128, 255, 255))})
+		}
+		parent = image.NewPaletted(pr, pal)
+	case "sub-ycbcr", "sub-nycbcra":
+		ratio := []image.YCbCrSubsampleRatio{image.YCbCrSubsampleRatio444, image.YCbCrSubsampleRatio420, image.YCbCrSubsampleRatio422}[rng.Intn(3)]
+		if s.Kind == "sub-ycbcr" {
+			im := image.NewYCbCr(pr, ratio)
+			for i := range im.Y {
+				im.Y[i] = uint8(i*7 + rng.Intn(8))
+			}
+			for i := range im.Cb {
+				im.Cb[i], im.Cr[i] = uint8(rng.U64()), uint8(rng.U64())
+			}
+			return im.SubImage(sr)
+		}
+		im := image.NewNYCbCrA(pr, ratio)
+		for i := range im.Y {
+			im.Y[i] = uint8(i*5 + rng.Intn(8))
+		}
+		for i := range im.Cb {
+			im.Cb[i], im.Cr[i] = uint8(rng.U64()), uint8(rng.U64())
+		}
+		for i := range im.A {
+			im.A[i] = uint8(rng.Pick(0, 1, 128, 255, 255))
+		}
+		return im.SubImage(sr)
+	case "generic-offset":
+		im := image.NewNRGBA(pr)
+		for i := range im.Pix {
+			im.Pix[i] = uint8(rng.U64())
+		}
+		for y := 0; y < h; y++ {
+			for x := 0; x < w; x++ {
+				im.SetNRGBA(ox+x, oy+y, at(x, y))
+			}
+		}
+		return wrapImage{im.SubImage(sr)}
+	default:
+		return nil
+	}
+	// surroundings differ from the picture, so that reading at the wrong offset is visible
+	for y := 0; y < ph; y++ {
+		for x := 0; x < pw; x++ {
+			parent.Set(x, y, color.NRGBA{uint8(rng.U64()), uint8(rng.U64()), uint8(rng.U64()), uint8(rng.Pick(0, 77, 255))})
+		}
+	}
+	for y := 0; y < h; y++ {
+		for x := 0; x < w; x++ {
+			parent.Set(ox+x, oy+y, at(x, y))
+		}
+	}
+	return parent.(interface {
+		SubImage(image.Rectangle) image.Image
+	}).SubImage(sr)
 }
 
 // expected pixels: the source read as non-premultiplied 8-bit RGBA
@@ -354,6 +441,9 @@ var (
 	contents  = []string{"photo", "noise", "flat", "pal1", "pal2", "pal4", "pal16", "pal256"}
 	alphas    = []string{"opaque", "binary", "graded", "zero-hidden"}
 	kinds     = []string{"nrgba", "rgba", "gray", "paletted", "nrgba64", "sub-nrgba", "sub-rgba", "generic"}
+	// no fast path in the encoder and Bounds().Min != (0,0)
+	offsetKinds = []string{"sub-gray", "sub-gray16", "sub-alpha", "sub-alpha16", "sub-cmyk", "sub-nrgba64", "sub-rgba64",
+		"sub-paletted", "sub-ycbcr", "sub-nycbcra", "generic-offset"}
 	qualities = []int{0, 9, 10, 24, 25, 49, 50, 74, 75, 89, 90, 100}
 )
 
@@ -365,7 +455,7 @@ func roundTrips(c *Ctx, r *runner) {
 	}
 	for i := 0; i < n; i++ {
 		s := rtSpec{
-			Content: contents[rng.Intn(len(contents))], Alpha: alphas[rng.Intn(len(alphas))], Kind: kinds[rng.Intn(len(kinds))],
+			Content: contents[rng.Intn(len(contents))], Alpha: alphas[rng.Intn(len(alphas))], Kind: append(kinds, offsetKinds...)[rng.Intn(len(kinds)+len(offsetKinds))],
 			Quality: qualities[rng.Intn(len(qualities))], Method: rng.Intn(7), Exact: rng.Bool(), Meta: rng.Pick(0, 0, 0, 1, 2, 3, 4, 5, 6, 7),
 		}
 		if rng.Intn(12) == 0 {
@@ -390,6 +480,17 @@ func roundTrips(c *Ctx, r *runner) {
 			s.W, s.H = rng.Range(17, 40), rng.Range(17, 40) // enough pixels for more than 256 colours (no palette)
 		}
 		roundTrip(c, r, rng.Fork(), s, s.W*s.H <= 72*72)
+	}
+	// {metadata kinds} x {image types without fast path, offset bounds} x Exact: both encoder paths
+	// (streaming without metadata, buffered with) must import the pixels at Bounds().Min + (x, y)
+	for _, kind := range offsetKinds {
+		for _, meta := range []int{0, 1, 2, 4, 7} {
+			for _, exact := range []bool{false, true} {
+				s := rtSpec{W: rng.Range(1, 12), H: rng.Range(1, 12), Content: contents[rng.Intn(len(contents))], Alpha: alphas[rng.Intn(len(alphas))],
+					Kind: kind, Quality: qualities[rng.Intn(len(qualities))], Method: rng.Intn(7), Exact: exact, Meta: meta}
+				roundTrip(c, r, rng.Fork(), s, true)
+			}
+		}
 	}
 	// the (colour count x Method x Quality) product, small images
 	for _, content := range []string{"pal1", "pal2", "pal4", "pal16", "pal256", "photo"} {
